@@ -53,6 +53,7 @@ def ty_of_tokens(toks, self_ty=None):
     if s == "bool": return "bool"
     if s in ("str", "[u8]", "Vec<u8>"): return "str"
     if s in ("Vec<Value>",): return ("list", ("named", "Value"))
+    if s in ("Split<char>", "Split<,char>", "core::str::Split<char>", "core::str::Split<,char>"): return ("list", "str")   # str::split('/'): the pieces still to come
     if s in ("Map<String,Value>", "Table", "toml::Table"): return "map"
     if s == "String": return "String"
     if s in ("Cow<str>", "Cow<,str>", "implInto<Cow<str>>", "implInto<Cow<,str>>"): return "Cow"
@@ -319,6 +320,16 @@ class Emitter:
         if name in cx.poison: return self.with_poison(cx, (), (name,), thunk)
         return thunk()
 
+    def self_with_field(self, env, cx, field, new):
+        """`self.field = new` in a &mut self method over a struct: the record rebuilt with that field replaced"""
+        sty = env["self"][1]
+        if not (cx.mut_self and not cx.lens and isinstance(sty, tuple) and sty[0] == "named" and sty[1] in self.u.structs):
+            raise RsError("assignment to a field of self outside a &mut self method over a struct")
+        sn = sty[1]
+        fs = self.u.structs[sn]
+        if field not in [f for f, _ in fs]: raise RsError(f"{sn} has no field {field}")
+        return f"(mk_{sn} " + " ".join(new if f == field else f"({sn}_{f} self)" for f, _ in fs) + ")"
+
     def refs_in(self, env):
         return [v for v in env if has_ref(env[v][1])]
 
@@ -522,6 +533,7 @@ class Emitter:
         if frm == ("named", "Token") and is_str(to): return f"(cow_text (Token_inner {t}))"
         if frm == "str" and to == "Cow": return f"(Cow_Borrowed {t})"
         if frm == "String" and to == "Cow": return f"(Cow_Owned {t})"
+        if frm == ("list", "str") and to == ("named", "Tokens"): return f"(mk_Tokens {t})"     # `p.tokens()` stored in a field (Components)
         if frm == "map" and to == ("named", "Value"): return f"(Obj {t})"                  # `Table::default().into()`
         if isinstance(frm, tuple) and frm[0] == "list" and to == ("named", "Value"): return f"(Arr {t})"
         if isinstance(frm, tuple) and isinstance(to, tuple) and frm[0] == to[0]:
@@ -626,13 +638,45 @@ class Emitter:
             x = place_var(recv)
             sp = cx.fresh("sp")
             return self.tr(args[0], env, cx, lambda at, _: f"match str_split_at {x} {at} with Ret {sp} => let {x} := (fst {sp}) in {k(f'(snd {sp})', 'String')} | Panic => Panic | OutOfFuel => OutOfFuel end")
+        if base == "next" and not args:
+            # Iterator::next on the pieces of a `split`: a local variable, or the single field of `self` in a &mut self method
+            x = place_var(recv) if recv[0] == "path" else None
+            if x in env and isinstance(env[x][1], tuple) and env[x][1][0] == "list":
+                h, r = cx.fresh("hd"), cx.fresh("tl")
+                ety = env[x][1][1]
+                return (f"match {x} with [] => {k('None', ('opt', ety))} | {h} :: {r} => let {x} := {r} in {k(f'(Some {h})', ('opt', ety))} end")
+            if recv[0] == "field" and recv[1] == ("path", ["self"]) and cx.mut_self and not cx.lens and isinstance(env["self"][1], tuple) and env["self"][1][0] == "named":
+                sn = env["self"][1][1]
+                fs = self.u.structs.get(sn)
+                if fs and len(fs) == 1 and fs[0][0] == recv[2]:
+                    fty = ty_of_tokens(fs[0][1], sn)
+                    if isinstance(fty, tuple) and fty[0] == "list":
+                        h, r = cx.fresh("hd"), cx.fresh("tl")
+                        return (f"match {sn}_{recv[2]} self with [] => {k('None', ('opt', fty[1]))} "
+                                f"| {h} :: {r} => let self := mk_{sn} {r} in {k(f'(Some {h})', ('opt', fty[1]))} end")
+        if recv[0] == "field" and recv[1] == ("path", ["self"]) and "self" in env and cx.mut_self and not cx.lens:
+            sty = env["self"][1]
+            if isinstance(sty, tuple) and sty[0] == "named" and sty[1] in self.u.structs:
+                for f, t_ in self.u.structs[sty[1]]:
+                    if f == recv[2]:
+                        fty = ty_of_tokens(t_, sty[1])
+                        tn = fty[1] if isinstance(fty, tuple) and fty[0] == "named" else None
+                        if tn and (tn, base) in self.u.fns and (tn, base) in self.u.mut_self_fns:
+                            coqname, ptys, rty_ = self.u.fns[(tn, base)]
+                            r = cx.fresh("ms")
+                            return self.tr_list(args, env, cx, lambda ts:
+                                f"match {coqname} ({sty[1]}_{f} self) {' '.join(self.coerce(t, ty, pty) for (t, ty), pty in zip(ts, ptys[1:]))} with "
+                                f"Ret {r} => let self := {self.self_with_field(env, cx, f, f'(fst {r})')} in {k(f'(snd {r})', rty_[1][1])} "
+                                f"| Panic => Panic | OutOfFuel => OutOfFuel end")
         if base == "then_" and len(args) == 1 and args[0][0] == "closure":      # bool::then (`then` is mangled by the lexer)
             return self.tr(recv, env, cx, lambda bt, _: f"if {bt} then {self.apply_closure(args[0], [], env, cx, lambda t, ty: k(f'(Some {t})', ('opt', ty)))} else {k('None', ('opt', '?'))}")
         def after(rt, rty):
             tyname = rty[1] if isinstance(rty, tuple) and rty[0] == "named" else None
-            if tyname and (tyname, base) in self.u.fns:
+            if tyname and (tyname, base) in self.u.fns and base != "tokens":
+                # (`p.tokens()` stays the primitive [str_tokens] in callers; Proofs/GenEquivPtrOps.v proves the translated
+                #  Pointer::tokens + Tokens::next to produce exactly that list)
                 return self.call_generated((tyname, base), [(rt, rty)], args, env, cx, k)
-            if (tyname == "PointerBuf" or (rty in ("str", "String") and base in POINTER_ONLY)) and ("Pointer", base) in self.u.fns:
+            if (tyname == "PointerBuf" or (rty in ("str", "String") and base in POINTER_ONLY)) and ("Pointer", base) in self.u.fns and base != "tokens":
                 # Deref<Target = Pointer>; or the newtype was erased earlier and the method exists on Pointer only
                 return self.call_generated(("Pointer", base), [(rt, ("named", "Pointer"))], args, env, cx, k)
             # ---- Pointer::get(range): dispatch on the syntactic form of the range (PointerIndex impls)
@@ -806,6 +850,8 @@ class Emitter:
                     return self.tr(args[0], env, cx, lambda at, aty: k(f"({base} {st} {arg_as_str(self.coerce(at, aty, 'str') if aty != 'N' else at, aty)})", bty))
                 if base in ("rsplit_once", "split_once") and len(args) == 1 and args[0][0] == "char":
                     return k(f"({base} {args[0][1]} {st})", ("opt", ("tuple", ["str", "str"])))
+                if base == "split" and len(args) == 1 and args[0][0] == "char":
+                    return k(f"(split_on {args[0][1]} {st})", ("list", "str"))
                 if base == "contains" and len(args) == 1 and args[0][0] == "char":
                     return k(f"(match findN {args[0][1]} {st} with Some _ => true | None => false end)", "bool")
                 if base == "find" and len(args) == 1 and args[0][0] == "char":
@@ -1223,6 +1269,14 @@ class Emitter:
                 v = cx.fresh("upd")
                 return self.tr_list([lhs[2], rhs], env, cx, lambda ts:
                     f"match list_set {x} {ts[0][0]} {self.coerce(ts[1][0], ts[1][1], xty[1])} with Ret {v} => let {x} := {v} in {cont(env)} | Panic => Panic | OutOfFuel => OutOfFuel end")
+            if lhs[0] == "field" and lhs[1] == ("path", ["self"]) and op == "=" and "self" in env and not lhs[2].isdigit():
+                fty = None
+                sty = env["self"][1]
+                if isinstance(sty, tuple) and sty[0] == "named" and sty[1] in self.u.structs:
+                    for f, t_ in self.u.structs[sty[1]]:
+                        if f == lhs[2]: fty = ty_of_tokens(t_, sty[1])
+                if fty is None: raise RsError("assignment to an unknown field of self")
+                return self.tr(rhs, env, cx, lambda t, ty: f"let self := {self.self_with_field(env, cx, lhs[2], self.coerce(t, ty, fty))} in {cont(env)}")
             x = place_var(lhs)
             if not (x and x in env): raise RsError("assignment to an unknown place")
             if op == "=":
@@ -1558,7 +1612,7 @@ def translate(repo, groups, types, fuel):
 
 
 CONFIG = {
-    "types": ["InvalidEncoding", "EncodingError", "Token", "ParseError", "Index", "OutOfBoundsError",
+    "types": ["InvalidEncoding", "EncodingError", "Token", "Tokens", "Component", "Components", "ParseError", "Index", "OutOfBoundsError",
               "Range", "RangeFrom", "RangeTo", "RangeInclusive", "RangeToInclusive", "RangeFull", "Bound",
               "ParseIntError", "InvalidCharacterError", "ParseIndexError", "ResolveError", "AssignError", "ReplaceError"],
     # types that mention references into a document: emitted at the head of the group that uses them (after GenTreePrelude.lens)
@@ -1585,9 +1639,17 @@ CONFIG = {
             {"file": "src/token.rs", "impl": "Token", "name": "decoded", "coq": "gen_Token_decoded"},
             {"file": "src/token.rs", "impl": "Token", "name": "into_owned", "coq": "gen_Token_into_owned"},
             {"file": "src/token.rs", "impl": "Token", "name": "to_owned", "coq": "gen_Token_to_owned"},
+            {"file": "src/token.rs", "impl": "Tokens", "name": "new", "coq": "gen_Tokens_new"},
+            {"file": "src/token.rs", "impl": "Tokens", "trait": "Iterator", "name": "next", "coq": "gen_Tokens_next", "mut_self": True,
+             "ret": ("opt", ("named", "Token"))},
         ]),
         ("PtrOps", [
             {"file": "src/pointer.rs", "impl": "Pointer", "name": "is_root", "coq": "gen_Pointer_is_root"},
+            {"file": "src/pointer.rs", "impl": "Pointer", "name": "tokens", "coq": "gen_Pointer_tokens"},
+            {"file": "src/component.rs", "impl": "Components", "trait": "From<&", "name": "from", "coq": "gen_Components_from",
+             "param_types": {"pointer": ("named", "Pointer")}},
+            {"file": "src/component.rs", "impl": "Components", "trait": "Iterator", "name": "next", "coq": "gen_Components_next", "mut_self": True,
+             "ret": ("opt", ("named", "Component"))},
             {"file": "src/pointer.rs", "impl": "Pointer", "name": "count", "coq": "gen_Pointer_count"},
             {"file": "src/pointer.rs", "impl": "Pointer", "name": "back", "coq": "gen_Pointer_back"},
             {"file": "src/pointer.rs", "impl": "Pointer", "name": "last", "coq": "gen_Pointer_last"},
@@ -1702,7 +1764,7 @@ CONFIG = {
         ]),
     ],
     # which earlier groups a group's functions call (imports of the generated file)
-    "deps": {"TreeMut": ["Token", "PtrOps", "Slice", "Index", "=GenTreePrelude", "Tree"], "Slice": ["PtrOps"], "Buf": ["Token", "PtrOps"], "PtrBuild": ["Token", "PtrOps", "Buf"], "Index": ["=GenTreePrelude"], "Tree": ["Token", "PtrOps", "Slice", "Index", "=GenTreePrelude"]},
+    "deps": {"PtrOps": ["Token"], "TreeMut": ["Token", "PtrOps", "Slice", "Index", "=GenTreePrelude", "Tree"], "Slice": ["PtrOps"], "Buf": ["Token", "PtrOps"], "PtrBuild": ["Token", "PtrOps", "Buf"], "Index": ["=GenTreePrelude"], "Tree": ["Token", "PtrOps", "Slice", "Index", "=GenTreePrelude"]},
     # fuel for `while` loops: (generated function, nesting depth) -> Gallina term over the parameters
     "fuel": {("gen_validate_bytes", 0): "S (length bytes)",
              ("gen_json_resolve", 0): "S (length ptr)", ("gen_json_resolve_mut", 0): "S (length ptr)",
